@@ -165,6 +165,28 @@ def verdict_fn(q, rs, meth):
     return getattr(q, meth)
 
 
+class COut(Out):
+    """keeps at most CAP failure records per signature and case; further repeats are only counted"""
+    CAP = 3
+
+    def __init__(self):
+        super().__init__()
+        self._seen = {}
+
+    def fail(self, sig, msg):
+        k = self._seen.get(sig, 0)
+        self._seen[sig] = k + 1
+        if k < self.CAP:
+            super().fail(sig, msg)
+        else:
+            self.count("suppressed_repeats_of_failing_signatures")
+
+
+def callsite(typ, meth):
+    """'State.is_trace_one'; the module-level functions of quara.objects.gate are written 'gate.is_tp(c_sys,hs)'"""
+    return "%s(c_sys,hs)" % meth if meth.startswith("gate.") else "%s.%s" % (typ, meth)
+
+
 def magclass(v):
     return "le2e-5" if v <= 2e-5 else "gt2e-5"
 
@@ -195,12 +217,12 @@ def judge(cx, site, exp, broken, mode, atol_txt, ok, got):
     out.ops += 1
     bc = cx.rs.bclass
     if not ok:
-        out.fail("%s.%s:raises:%s:atol=%s:basis=%s" % (cx.typ, site, type(got).__name__, mode, bc),
+        out.fail("%s:raises:%s:atol=%s:basis=%s" % (callsite(cx.typ, site), type(got).__name__, mode, bc),
                  "%s with %s: %s" % (cx.describe(), atol_txt, A.fmt_exc(got)))
         cx.bits.append(3)
         return None
     if not isinstance(got, (bool, np.bool_)):
-        out.fail("%s.%s:returns-non-bool:atol=%s:basis=%s" % (cx.typ, site, mode, bc),
+        out.fail("%s:returns-non-bool:atol=%s:basis=%s" % (callsite(cx.typ, site), mode, bc),
                  "%s with %s returned %r" % (cx.describe(), atol_txt, got))
         cx.bits.append(3)
         return None
@@ -212,11 +234,11 @@ def judge(cx, site, exp, broken, mode, atol_txt, ok, got):
     if got != exp:
         if exp is False:
             size = max(cx.meas[c][0] for c in broken.split("+"))
-            out.fail("%s.%s:false-accept:%s-defect:%s:atol=%s:basis=%s" % (cx.typ, site, broken, magclass(size), mode, bc),
+            out.fail("%s:false-accept:%s-defect:%s:atol=%s:basis=%s" % (callsite(cx.typ, site), broken, magclass(size), mode, bc),
                      "%s: verdict True with %s although the %s violation is >= 10*atol" % (cx.describe(), atol_txt, broken))
         else:
             what = "physical-object" if cx.kind == "none" else "defect-below-atol/10"
-            out.fail("%s.%s:false-reject:%s:atol=%s:basis=%s" % (cx.typ, site, what, mode, bc),
+            out.fail("%s:false-reject:%s:atol=%s:basis=%s" % (callsite(cx.typ, site), what, mode, bc),
                      "%s: verdict False with %s although every violation is <= atol/10" % (cx.describe(), atol_txt))
     return got
 
@@ -257,7 +279,7 @@ def monotone(cx, site, mode, row):
         if v:
             seen_true = True
         elif seen_true:
-            cx.out.fail("%s.%s:not-monotone-in-atol:atol=%s:basis=%s" % (cx.typ, site, mode, cx.rs.bclass),
+            cx.out.fail("%s:not-monotone-in-atol:atol=%s:basis=%s" % (callsite(cx.typ, site), mode, cx.rs.bclass),
                         "%s: verdicts over the ascending atol grid %r" % (cx.describe(), row))
             return
     if vals and (not vals[0]) and vals[-1]:
@@ -376,7 +398,7 @@ def check_input(out, typ, rs, obj, kind, dl, raw, spec, bits):
 
 
 def ex_verdicts(typ, p, seed):
-    out = Out()
+    out = COut()
     rs = F.refsys(p["tag"])
     spec = p["spec"]
     ref = F.alphabet_of(typ, rs.d, seed, ms_of(typ))[p["obj"]]
@@ -411,7 +433,7 @@ def n_elems(typ, raw):
 
 def ex_origin_zero(p, seed):
     from quara.settings import Settings
-    out = Out()
+    out = COut()
     typ = p["type"]
     rs = F.refsys(p["tag"])
     asserted_origin = rs.tag in F.NORMALISED
@@ -514,7 +536,7 @@ def ex_origin_zero(p, seed):
 def ex_matrix_util(p, seed):
     from quara.settings import Settings
     import quara.utils.matrix_util as mutil
-    out = Out()
+    out = COut()
     d, spec = p["d"], p["spec"]
     grid, ladder = GRIDS[spec], LADDERS[spec]
     U = A.eigenbases(d, seed)[p["eigenbasis"]]
